@@ -475,6 +475,9 @@ pub enum FillMode {
     /// `TestSource::empty_fill_every`)
     IntChained,
     BytesChained,
+    /// full blocks, delivered through `fill_interleaved` or `fill_le_bytes` from read to read (a
+    /// source that switches its delivery path inside one stream; pattern i, i, b, i, b, b, ...)
+    Mixed,
 }
 
 #[derive(Clone, Debug)]
@@ -524,6 +527,28 @@ pub struct TestSource {
     /// (read index, milliseconds): the source blocks that long before delivering that read
     /// (a real-time capture / network source that stalls)
     pub stall: Option<(usize, u64)>,
+    /// which `SourceError` an injected read failure carries (see `source_error`)
+    pub err_flavour: usize,
+}
+
+pub const ERR_FLAVOURS: usize = 8;
+
+/// The read failures a source can report: every public constructor of `SourceError`, and for the
+/// I/O flavour several `io::ErrorKind`s (a transient-looking one such as `Interrupted` included -
+/// what a bare `Read::read` yields on a signal). All of them are read errors to the encoder.
+pub fn source_error(flavour: usize) -> SourceError {
+    use flacenc::error::SourceErrorReason as R;
+    use std::io::{Error, ErrorKind};
+    match flavour % ERR_FLAVOURS {
+        0 => SourceError::from_unknown(),
+        1 => SourceError::from_io_error(Error::new(ErrorKind::Interrupted, "interrupted")),
+        2 => SourceError::from_io_error(Error::new(ErrorKind::WouldBlock, "would block")),
+        3 => SourceError::from_io_error(Error::new(ErrorKind::UnexpectedEof, "eof")),
+        4 => SourceError::by_reason(R::InvalidFormat),
+        5 => SourceError::from_io_error(Error::new(ErrorKind::TimedOut, "timed out")),
+        6 => SourceError::by_reason(R::Open),
+        _ => SourceError::by_reason(R::IO(None)),
+    }
 }
 
 impl TestSource {
@@ -544,6 +569,7 @@ impl TestSource {
             hint_bias: 0,
             empty_fill_every: 0,
             stall: None,
+            err_flavour: 0,
         }
     }
     pub fn with_faults(mut self, f: Vec<Fault>) -> Self {
@@ -585,7 +611,7 @@ impl Source for TestSource {
         for f in &self.faults {
             if let Fault::ErrAt(r) = f {
                 if *r == k {
-                    return Err(SourceError::from_unknown());
+                    return Err(source_error(self.err_flavour));
                 }
             }
         }
@@ -629,11 +655,22 @@ impl Source for TestSource {
         let empty_fill_every = if matches!(self.mode, FillMode::IntChained | FillMode::BytesChained) && self.empty_fill_every == 0 { 2 } else { self.empty_fill_every };
         if empty_fill_every > 0 && (k + 1) % empty_fill_every == 0 && n > 0 {
             match self.mode {
+                FillMode::Mixed => dest.fill_interleaved(&[])?,
                 FillMode::Int | FillMode::IntShort | FillMode::IntChained => dest.fill_interleaved(&[])?,
                 FillMode::Bytes | FillMode::BytesShort | FillMode::BytesChained => dest.fill_le_bytes(&[], self.bytes_per_sample.unwrap_or((self.audio.bps + 7) / 8))?,
             }
         }
-        match self.mode {
+        let mode = if self.mode == FillMode::Mixed {
+            if [true, true, false, true, false, false, true][k % 7] {
+                FillMode::Int
+            } else {
+                FillMode::Bytes
+            }
+        } else {
+            self.mode
+        };
+        match mode {
+            FillMode::Mixed => unreachable!(),
             FillMode::Int | FillMode::IntShort | FillMode::IntChained => dest.fill_interleaved(data)?,
             FillMode::Bytes | FillMode::BytesShort | FillMode::BytesChained => {
                 let b = self.bytes_per_sample.unwrap_or((self.audio.bps + 7) / 8);
